@@ -449,8 +449,50 @@ theorem C07_status_names_complete :
       .whitelisted, .rewritten, .safeSearch, .processed] ∧ (statusNames.map (·.1)).Nodup := by
   decide
 
-/-- The case-insensitive substring test of the package tries every offset: it
-holds exactly when the term occurs somewhere (F13 repaired). -/
+/-- The substring test of the package is exact: `containsFold s t` holds iff the
+field contains a substring equal to the term under Unicode simple case folding
+— the folded runes of the term occur contiguously in the folded runes of the
+field (runes as Go decodes them, invalid bytes as U+FFFD; folding from the
+generated unicode.SimpleFold table).  Every rune start of the field is tried,
+whatever the UTF-8 lengths of the letters involved (F13 and F-fold repaired). -/
+theorem C07_contains_fold_exact (s t : Bytes) :
+    containsFold s t = true ↔ ∃ pre post, foldRunes s = pre ++ foldRunes t ++ post := by
+  rw [containsFold_eq_spec]
+  exact infixAt_iff (foldRunes s) (foldRunes t)
+
+/-- The loop before the repair a9f2bbd (finding F-fold): a window of `len(substr)`
+BYTES at every rune start, compared with `strings.EqualFold`. -/
+def containsFoldWindowN : Nat → Bytes → Bytes → Bool
+  | 0, _, _ => false
+  | fuel + 1, sub, s =>
+    if s = [] then false
+    else if s.length < sub.length then false
+    else if equalFold (s.take sub.length) sub then true
+    else containsFoldWindowN fuel sub (s.drop (decodeFirst s).2)
+
+def containsFoldWindow (s sub : Bytes) : Bool :=
+  if sub.length = 0 then true else containsFoldWindowN s.length sub s
+
+/-- Before the repair the substring test was NOT exact: letters equal under case
+folding can differ in UTF-8 length.  Field "ſ" (U+017F, 2 bytes), term "s"; field
+"STRAẞE" (ẞ = U+1E9E, 3 bytes), term "straße" (ß = 2 bytes). -/
+theorem C07_contains_fold_counterexample_before_fix :
+    (containsFoldWindow [0xC5, 0xBF] [115] = false ∧ containsSpec [0xC5, 0xBF] [115] = true) ∧
+    (containsFoldWindow [83, 84, 82, 65, 0xE1, 0xBA, 0x9E, 69] [115, 116, 114, 97, 0xC3, 0x9F, 101] = false ∧
+     containsFold [83, 84, 82, 65, 0xE1, 0xBA, 0x9E, 69] [115, 116, 114, 97, 0xC3, 0x9F, 101] = true) := by
+  decide +kernel
+
+/-- Non-vacuity beyond ASCII: "ΝΙΚΟΣ" contains "ικος" (final sigma) under case
+folding, does not contain "ικοτ"; an invalid byte equals U+FFFD. -/
+example :
+    containsFold [0xCE, 0x9D, 0xCE, 0x99, 0xCE, 0x9A, 0xCE, 0x9F, 0xCE, 0xA3]
+                 [0xCE, 0xB9, 0xCE, 0xBA, 0xCE, 0xBF, 0xCF, 0x82] = true ∧
+    containsFold [0xCE, 0x9D, 0xCE, 0x99, 0xCE, 0x9A, 0xCE, 0x9F, 0xCE, 0xA3]
+                 [0xCE, 0xB9, 0xCE, 0xBA, 0xCE, 0xBF, 0xCF, 0x84] = false ∧
+    equalFold [0xFF] [0xEF, 0xBF, 0xBD] = true := by
+  decide +kernel
+
+/-- ...and it is the spec's relation (used by `C07_term_exact`). -/
 theorem C07_contains_exact (s sub : Bytes) : containsFold s sub = containsSpec s sub :=
   containsFold_eq_spec s sub
 
